@@ -905,6 +905,31 @@ def _list(ex, args, kwargs, node):
     return r
 
 
+def _operator_models():
+    cmps = {"lt": ast.Lt, "le": ast.LtE, "gt": ast.Gt, "ge": ast.GtE, "eq": ast.Eq, "ne": ast.NotEq, "is_": ast.Is, "is_not": ast.IsNot}
+    bins = {"add": ast.Add, "sub": ast.Sub, "mul": ast.Mult, "truediv": ast.Div, "floordiv": ast.FloorDiv, "mod": ast.Mod, "pow": ast.Pow}
+    for nm, op in cmps.items():
+        EXT[f"operator.{nm}"] = (lambda ex, args, kwargs, node, op=op: ex.compare(op(), args[0], args[1], node))
+    for nm, op in bins.items():
+        EXT[f"operator.{nm}"] = (lambda ex, args, kwargs, node, op=op: ex.binop(op(), args[0], args[1], node))
+    EXT["operator.not_"] = lambda ex, args, kwargs, node: Num(None, (), "bool", cond=ex.truth(args[0], node).neg())
+    EXT["operator.neg"] = lambda ex, args, kwargs, node: ex.binop(ast.Sub(), scalar_int(0), args[0], node)
+    # typing.cast(T, x) is x
+    EXT["typing.cast"] = lambda ex, args, kwargs, node: args[1]
+
+
+_operator_models()
+
+
+@model("collections.deque")
+def _deque(ex, args, kwargs, node):
+    # a deque used as a FIFO (append / popleft / len / iteration) behaves like a list with pop(0); a bounded deque
+    # (maxlen) silently drops elements and is not modelled
+    if kwargs.get("maxlen") is not None and not isinstance(kwargs.get("maxlen"), NoneV) or len(args) > 1:
+        raise Undecided("collections.deque with maxlen", node)
+    return _list(ex, args[:1], {}, node)
+
+
 @model("builtins.reversed")
 def _reversed(ex, args, kwargs, node):
     v = args[0]
@@ -1175,6 +1200,18 @@ def _np_sum(ex, args, kwargs, node):
     return reduce_sum(ex, v, _axis(kwargs, args, 1), node)
 
 
+@model("numpy.add.reduce")
+def _np_add_reduce(ex, args, kwargs, node):
+    # np.add.reduce(x, axis=k) is np.sum(x, axis=k); without an axis it reduces along axis 0 (np.sum: over all axes)
+    v = _arr(ex, args[0], node)
+    ax = _axis(kwargs, args, 1)
+    if ax is None:
+        if v.shape is not None and len(v.shape) == 1:
+            return reduce_sum(ex, v, None, node)
+        ax = 0
+    return reduce_sum(ex, v, ax, node)
+
+
 def _arr(ex, v, node):
     """np.asarray view of a value"""
     if isinstance(v, Num):
@@ -1219,10 +1256,33 @@ def _np_full(ex, args, kwargs, node):
     return ex.arr_value(a)
 
 
+@model("numpy.reshape")
+def _np_reshape(ex, args, kwargs, node):
+    # np.reshape(x, shape) is x.reshape(shape)
+    v = _arr(ex, args[0], node)
+    shp = _kw(args, kwargs, 1, "newshape", None) or kwargs.get("shape")
+    return num_method(ex, v, "reshape", [shp], {}, node)
+
+
+@model("numpy.hstack")
+def _np_hstack(ex, args, kwargs, node):
+    # for 1-D operands (and scalars) hstack is concatenate along the only axis; for matrices it joins COLUMNS
+    v = args[0]
+    if isinstance(v, (TupleV, ListV)) and not getattr(v, "opaque", False):
+        parts = [_arr(ex, x, node) for x in v.items]
+        if all(q.shape is not None and len(q.shape) <= 1 for q in parts):
+            return _np_concatenate(ex, [v], {}, node)
+        if all(q.shape is not None and len(q.shape) == 2 for q in parts):
+            return _np_concatenate(ex, [v], {"axis": scalar_int(1)}, node)
+    raise Undecided("np.hstack of operands of unknown rank", node)
+
+
 @model("numpy.zeros_like")
 def _np_zeros_like(ex, args, kwargs, node):
     v = _arr(ex, args[0], node)
-    a = ex.new_array(("zeros",), v.shape, v.dtype or "float", node)
+    dkw = _kw(args, kwargs, 1, "dtype")
+    dt = v.dtype if dkw is None or isinstance(dkw, NoneV) else _dtype_of(dkw)
+    a = ex.new_array(("zeros",), v.shape, dt or "float", node)
     a.like = v
     return ex.arr_value(a)
 
@@ -1666,6 +1726,16 @@ def _np_isin(ex, args, kwargs, node):
     r = ex.mk("isin", ex.as_nf(a, node), ex.as_nf(b, node), shape=a.shape, dtype="bool")
     r.meta["boolarr"] = True
     r.meta["isin"] = (a, b)
+    inv = kwargs.get("invert")
+    if inv is not None and not isinstance(inv, NoneV):
+        if isinstance(inv, Num) and inv.cond is not None and inv.cond.is_const():
+            if inv.cond.value():
+                # np.isin(a, b, invert=True) is ~np.isin(a, b)
+                r2 = ex.mk("invert", r.nf, shape=r.shape, dtype="bool")
+                r2.meta["boolarr"] = True
+                return r2
+        else:
+            raise Undecided("np.isin with a symbolic invert flag", node)
     return r
 
 
@@ -1782,6 +1852,20 @@ def _np_roll(ex, args, kwargs, node):
 def _np_where(ex, args, kwargs, node):
     if len(args) == 3:
         c, a, b = args
+        # np.where(x < m, m, x) is max(x, m), np.where(x < m, x, m) is min(x, m) (also with <=, >, >=: the test compares
+        # the two alternatives themselves); a NaN on either side gives NaN in both spellings
+        if isinstance(c, Num) and c.cond is not None and c.cond.t[0] == "cmp" and c.cond.t[1] in ("<0", "<=0") and isinstance(a, Num) and isinstance(b, Num) and a.nf is not None and b.nf is not None and a.cond is None and b.cond is None:
+            d = c.cond.t[2]
+            shape = ex.bshape(ex.bshape(a.shape, b.shape, node), c.shape, node) if c.shape is not None else ex.bshape(a.shape, b.shape, node)
+            if nf_equal(d, b.nf - a.nf):
+                # picks a when b < a: the larger one
+                rr = nf_max(a.nf, b.nf)
+                ex.register_atom(rr, shape)
+                return Num(rr, shape, "float" if "float" in (a.dtype, b.dtype) else a.dtype)
+            if nf_equal(d, a.nf - b.nf):
+                rr = nf_min(a.nf, b.nf)
+                ex.register_atom(rr, shape)
+                return Num(rr, shape, "float" if "float" in (a.dtype, b.dtype) else a.dtype)
         r = ex.mk("where", valkey(c), ex.as_nf(a, node), ex.as_nf(b, node), shape=ex.bshape(a.shape, b.shape, node))
         return r
     v = _arr(ex, args[0], node)
@@ -2053,6 +2137,8 @@ def obj_method(ex, obj: ObjV, name, args, kwargs, node):
 
 
 def list_method(ex, lst: ListV, name, args, kwargs, node):
+    if name in ("append", "extend", "insert", "reverse") and getattr(lst, "is_sorted", False):
+        lst.is_sorted = False  # a list that was sorted is not known to be sorted after it has grown / been reordered
     if name == "append":
         ex.emit("list_append", node, lst=lst, value=args[0])
         if not lst.opaque:
@@ -2066,6 +2152,9 @@ def list_method(ex, lst: ListV, name, args, kwargs, node):
     if name == "extend":
         ex.list_extend(lst, args[0], node)
         return NONE
+    if name == "popleft" and not args:
+        # collections.deque: popleft() is pop(0)
+        name, args = "pop", [scalar_int(0)]
     if name == "pop":
         ex.emit("list_pop", node, lst=lst, index=args[0] if args else None)
         lst.version = getattr(lst, "version", 0) + 1
